@@ -35,11 +35,11 @@ func init() {
 }
 
 type vfC06Push struct {
-	Addrs  []int // address indexes (0 = the all-zero address)
-	Repeat int   // push this many consecutive transactions with these addresses (>= 1)
-	SlotGap int  // slot advance before the first of them
-	Flags  int   // bit0 hasMeta, bit1 isSuccess, bit2 isVote
-	Yield  int   // after the push: 0 nothing, 1 Gosched, 2 sleep 200us, 3 sleep 2ms, 4 sleep 12ms
+	Addrs   []int // address indexes (0 = the all-zero address)
+	Repeat  int   // push this many consecutive transactions with these addresses (>= 1)
+	SlotGap int   // slot advance before the first of them
+	Flags   int   // bit0 hasMeta, bit1 isSuccess, bit2 isVote
+	Yield   int   // after the push: 0 nothing, 1 Gosched, 2 sleep 200us, 3 sleep 2ms, 4 sleep 12ms
 }
 
 type vfC06Case struct {
